@@ -48,6 +48,15 @@ def check(col: Collector, tier: str):
     pm = parent_map(fn)
     helper_calls = [c for c in walk_no_nested(fn) if isinstance(c, ast.Call) and call_name(c) == "_substitute_arguments"]
     list_names = {src(c.args[1]) for c in helper_calls if len(c.args) > 1}
+    # ... and every list that is poured into one of those (parts collected separately and joined: repl_list += obj_repl)
+    for _ in range(3):
+        for n_ in walk_no_nested(fn):
+            if isinstance(n_, ast.AugAssign) and src(n_.target) in list_names and isinstance(n_.value, ast.Name):
+                list_names.add(n_.value.id)
+            elif isinstance(n_, ast.Call) and call_name(n_) == "extend" and src(n_.func.value) in list_names and n_.args and isinstance(n_.args[0], ast.Name):
+                list_names.add(n_.args[0].id)
+            elif isinstance(n_, ast.Assign) and src(n_.targets[0]) in list_names and isinstance(n_.value, ast.BinOp) and isinstance(n_.value.op, ast.Add):
+                list_names.update(x.id for x in (n_.value.left, n_.value.right) if isinstance(x, ast.Name))
     pairs = []   # (key expr, value expr, iteration source or None, guards)
 
     def add_pairs(container, node_for_guards):
